@@ -225,6 +225,9 @@ pub enum P2Ev {
     DnsQuery,
     /// a second, different DNS query (two pending queries in one socket, staggered timers)
     DnsQueryB,
+    /// a `.local` query: sent to the two mDNS groups one after the other (a two-"server" query
+    /// even where only one unicast server can be configured)
+    DnsQueryLocal,
     ArpReplyFromPeer,
     RouterAdvert { lifetime_s: u16, prefix: bool },
     /// UDP datagram to an on-link IPv6 neighbor nobody answers for (neighbor solicitation back-off)
@@ -394,6 +397,11 @@ impl P2 {
                 let cx = self.iface.context();
                 let s = self.sockets.get_mut::<dns::Socket>(self.dns);
                 let _ = s.start_query(cx, "b.example", smoltcp::wire::DnsQueryType::A);
+            }
+            P2Ev::DnsQueryLocal => {
+                let cx = self.iface.context();
+                let s = self.sockets.get_mut::<dns::Socket>(self.dns);
+                let _ = s.start_query(cx, "printer.local", smoltcp::wire::DnsQueryType::A);
             }
             P2Ev::ArpReplyFromPeer => self.arp_reply_from_peer(),
             P2Ev::Hold => self.dev.tx_budget = Some(0),
@@ -606,6 +614,7 @@ impl Harness for P2 {
                 (P2Ev::Plus(61_000_000), 0),
                 (P2Ev::DnsQuery, 0),
                 (P2Ev::DnsQueryB, 0),
+                (P2Ev::DnsQueryLocal, 0),
                 (P2Ev::ArpReplyFromPeer, 0),
                 (P2Ev::UdpToResolved, 0),
             ];
